@@ -4,6 +4,7 @@ import (
 	"bytes"
 	"encoding/base64"
 	"fmt"
+	"regexp"
 	"strconv"
 	"strings"
 	"sync"
@@ -550,7 +551,7 @@ func cmdExecRunner(c *Ctx, in map[string]string) {
 	before := len(log.String())
 	res := safely(func() string { ch.Execute(client, *e); return "" })
 	var action string
-	wait := 5 * time.Millisecond
+	wait := 2 * time.Millisecond
 	if strings.Contains(model, "| invoke") {
 		wait = 2 * time.Second
 	}
@@ -652,25 +653,44 @@ func runC18(c *Ctx) {
 			r.Sample(map[string]string{"prefix": q(pfx), "text": q(text), "registered": fmt.Sprint(regd)})
 		}
 	}
-	// regexp vs hand matcher on the prefix/name boundary: exhaustive short texts
-	for _, pfx := range []string{"!", ".", ""} {
-		alpha := "a-_ A\n!."
+	// regexp vs hand matcher on the prefix/name boundary: exhaustive short texts, against Go's regexp compiled
+	// from the same pattern string the package uses (its source text is a regenerated fact, Gen.str_cmdMatch).
+	for _, pfx := range []string{"!", ".", "", "$(", "a"} {
+		re := regexp.MustCompile(fmt.Sprintf(`^%s([a-z0-9-_]{1,20})(?: (.*))?$`, regexp.QuoteMeta(pfx)))
+		alpha := "a-_ A\n!.$("
 		cur := []string{""}
-		for l := 0; l < 4; l++ {
+		depth := 4
+		if c.Tier == "thorough" {
+			depth = 5
+		}
+		for l := 0; l < depth; l++ {
 			var next []string
 			for _, w := range cur {
 				for j := 0; j < len(alpha); j++ {
 					t := w + string(alpha[j])
 					next = append(next, t)
-					in := map[string]string{"prefix": pfx, "ncmds": "1", "c0.name": "a", "c0.aliases": "a-\x00_", "c0.min": "1"}
-					for k, v := range evIn(&girc.Event{Command: "PRIVMSG", Params: []string{"#c", t}, Source: &girc.Source{Name: "n"}}) {
-						in[k] = v
+					want := "nomatch"
+					if m := re.FindStringSubmatch(t); len(m) == 3 {
+						want = hx(m[1]) + " " + hx(m[2])
 					}
-					c.run("cmdexec", in)
+					if got := c.L.Call("cmdmatch", hx(pfx), hx(t)); got != want {
+						r.Mismatch("cmdmatch", map[string]string{"prefix": hx(pfx), "text": hx(t)}, want, got)
+					}
 					r.Count(pfx+"\x00"+t, true, "regex-exhaustive")
 				}
 			}
 			cur = next
+		}
+		long := pfx + strings.Repeat("a", 20)
+		for _, t := range []string{long, long + "a", long + " x", long + "a x", pfx + "a \xff\xfe", pfx + "a " + strings.Repeat(" ", 3)} {
+			want := "nomatch"
+			if m := re.FindStringSubmatch(t); len(m) == 3 {
+				want = hx(m[1]) + " " + hx(m[2])
+			}
+			if got := c.L.Call("cmdmatch", hx(pfx), hx(t)); got != want {
+				r.Mismatch("cmdmatch", map[string]string{"prefix": hx(pfx), "text": hx(t)}, want, got)
+			}
+			r.Count(pfx+"\x00"+t, true, "regex-boundary")
 		}
 	}
 	r.Exhaustive = true
